@@ -18,15 +18,24 @@
 //!   can be caught by the caller with `catch_unwind`; [`reset_clock`] puts the thread's clock back
 //!   to zero afterwards.
 //!
-//! Simplifications: responses are delivered immediately after the frame was sent (no frames in
-//! flight concurrently, no reordering); a lost frame is simply never answered.
+//! * [`run_tasks`] is the multi task variant: several futures share one `MainDevice` on one thread.
+//!   A seeded scheduler picks which ready task is polled next, every response is delivered after a
+//!   seeded latency, so several frames can be in flight and responses of different frames can be
+//!   delivered in any order. The segment still processes frames in the order they were sent (at
+//!   the moment they are sent).
+//!
+//! Simplifications: with [`block_on`] responses are delivered immediately after the frame was sent
+//! (no frames in flight concurrently, no reordering); a lost frame is simply never answered.
+//! With [`run_tasks`] the device side effects of a frame happen at send time, not at some point
+//! between send and delivery.
 
+use crate::rng::Rng;
 use crate::simnet::Segment;
 use ethercrab::{PduLoop, PduRx, PduStorage, PduTx};
 use std::cell::RefCell;
 use std::collections::BTreeMap;
 use std::future::Future;
-use std::pin::pin;
+use std::pin::{Pin, pin};
 use std::sync::Arc;
 use std::sync::atomic::{AtomicBool, Ordering};
 use std::task::{Context, Poll, Wake, Waker};
@@ -317,6 +326,255 @@ pub fn block_on_with<F: Future>(
             }
             None => {
                 return RunOutcome::Hang(stats);
+            }
+        }
+    }
+}
+
+// -------------------------------------------------------------------------------------------------
+// Multi task executor
+// -------------------------------------------------------------------------------------------------
+
+/// Configuration of [`run_tasks`].
+#[derive(Debug, Clone, Copy, PartialEq, Eq)]
+pub struct MultiConfig {
+    pub sim: SimConfig,
+    /// Seed of the scheduler and of the wire latencies.
+    pub seed: u64,
+    /// Every response is delivered `latency_us.0 ..= latency_us.1` microseconds (seeded, uniform)
+    /// after the frame was sent, plus the frame's cost from [`SimConfig`] when
+    /// `add_frame_cost` is set.
+    pub latency_us: (u64, u64),
+    pub add_frame_cost: bool,
+}
+
+impl Default for MultiConfig {
+    fn default() -> Self {
+        Self {
+            sim: SimConfig::default(),
+            seed: 1,
+            latency_us: (10, 10),
+            add_frame_cost: false,
+        }
+    }
+}
+
+/// Statistics of one [`run_tasks`] call.
+#[derive(Debug, Clone, PartialEq, Eq, Default)]
+pub struct MultiStats {
+    pub polls: u64,
+    pub frames_sent: u64,
+    pub frames_lost: u64,
+    /// Responses `PduRx::receive_frame` refused (e.g. nobody waits for them any more).
+    pub rx_errors: u64,
+    pub virtual_us: u64,
+    pub clock_jumps: u64,
+    /// Largest number of frames that were sent but not yet answered at the same time.
+    pub max_in_flight: usize,
+    /// Responses delivered while an earlier sent frame was still in flight.
+    pub overtakes: u64,
+    /// Which tasks ran to completion.
+    pub completed: Vec<bool>,
+}
+
+/// Result of [`run_tasks`].
+#[derive(Debug, Clone, PartialEq, Eq)]
+pub enum MultiOutcome {
+    /// All tasks completed.
+    Done(MultiStats),
+    /// Some task is pending, nothing is in flight and no timer is registered.
+    Hang(MultiStats),
+    /// `Limits` exceeded.
+    Budget(MultiStats),
+}
+
+impl MultiOutcome {
+    pub fn stats(&self) -> &MultiStats {
+        match self {
+            MultiOutcome::Done(s) | MultiOutcome::Hang(s) | MultiOutcome::Budget(s) => s,
+        }
+    }
+
+    pub fn kind(&self) -> &'static str {
+        match self {
+            MultiOutcome::Done(_) => "done",
+            MultiOutcome::Hang(_) => "hang",
+            MultiOutcome::Budget(_) => "budget",
+        }
+    }
+}
+
+/// A task of [`run_tasks`]. Tasks report their results through shared state (`Rc<RefCell<..>>`
+/// borrowed only between await points) so that partial results survive a hang or a panic.
+pub type Task<'a> = Pin<Box<dyn Future<Output = ()> + 'a>>;
+
+struct InFlight {
+    deliver_at_us: u64,
+    /// Send order, to detect overtaking.
+    sent_seq: u64,
+    response: Option<Vec<u8>>,
+}
+
+/// Run several tasks that share one `MainDevice` on the calling thread.
+///
+/// * At every step one of the ready (woken, unfinished) tasks is chosen by a PRNG seeded with
+///   `cfg.seed` and polled once. All tasks start ready.
+/// * After every poll the sendable frames are drained: each is processed by the segment
+///   immediately (frames are processed in send order) and its response is queued for delivery at
+///   `now + latency`. Responses due at the same time are delivered in seeded order.
+/// * When no task is ready the clock jumps to the next delivery or timer, whichever is first.
+/// * A panic inside a task propagates to the caller (wrap the call in `catch_unwind`); nothing is
+///   borrowed from thread local state while a task is polled.
+pub fn run_tasks(
+    mut tasks: Vec<Task<'_>>,
+    tx: &mut PduTx<'_>,
+    rx: &mut PduRx<'_>,
+    seg: &mut Segment,
+    limits: Limits,
+    cfg: MultiConfig,
+) -> MultiOutcome {
+    let n = tasks.len();
+    let flags: Vec<Arc<FlagWaker>> = (0..n).map(|_| Arc::new(FlagWaker(AtomicBool::new(true)))).collect();
+    let wakers: Vec<Waker> = flags.iter().map(|f| Waker::from(f.clone())).collect();
+    let mut done = vec![false; n];
+    let mut stats = MultiStats {
+        completed: vec![false; n],
+        ..Default::default()
+    };
+    let start_us = now_us();
+    let mut rng = Rng::new(cfg.seed ^ 0x6D75_6C74_6974_6173);
+    let mut in_flight: Vec<InFlight> = Vec::new();
+    let mut sent_seq = 0u64;
+    let mut buf: Vec<u8> = Vec::with_capacity(1600);
+    let (lat_min, lat_max) = (cfg.latency_us.0.min(cfg.latency_us.1), cfg.latency_us.0.max(cfg.latency_us.1));
+
+    loop {
+        stats.virtual_us = now_us() - start_us;
+        if done.iter().all(|d| *d) {
+            stats.completed = done;
+            return MultiOutcome::Done(stats);
+        }
+        if stats.virtual_us >= limits.max_virtual_us || stats.frames_sent >= limits.max_frames {
+            stats.completed = done;
+            return MultiOutcome::Budget(stats);
+        }
+
+        // Deliver everything that is due (timers first: a response that arrives exactly at the
+        // deadline competes with the timeout like on a real system, the future decides).
+        let now = now_us();
+        let mut due: Vec<InFlight> = Vec::new();
+        let mut i = 0;
+        while i < in_flight.len() {
+            if in_flight[i].deliver_at_us <= now {
+                due.push(in_flight.swap_remove(i));
+            } else {
+                i += 1;
+            }
+        }
+        if !due.is_empty() {
+            due.sort_by_key(|d| (d.deliver_at_us, d.sent_seq));
+            // Same delivery time: seeded order
+            let mut k = 0;
+            while k < due.len() {
+                let mut e = k + 1;
+                while e < due.len() && due[e].deliver_at_us == due[k].deliver_at_us {
+                    e += 1;
+                }
+                for a in (k + 1..e).rev() {
+                    let b = k + rng.below((a - k + 1) as u64) as usize;
+                    due.swap(a, b);
+                }
+                k = e;
+            }
+            for d in due {
+                if in_flight.iter().any(|f| f.sent_seq < d.sent_seq) {
+                    stats.overtakes += 1;
+                }
+                match d.response {
+                    Some(resp) => {
+                        if rx.receive_frame(&resp).is_err() {
+                            stats.rx_errors += 1;
+                        }
+                    }
+                    None => stats.frames_lost += 1,
+                }
+            }
+            continue;
+        }
+
+        // Pick a ready task
+        let ready: Vec<usize> = (0..n)
+            .filter(|&t| !done[t] && flags[t].0.load(Ordering::SeqCst))
+            .collect();
+        if !ready.is_empty() {
+            let t = ready[rng.below(ready.len() as u64) as usize];
+            flags[t].0.store(false, Ordering::SeqCst);
+            stats.polls += 1;
+            let mut cx = Context::from_waker(&wakers[t]);
+            if tasks[t].as_mut().poll(&mut cx).is_ready() {
+                done[t] = true;
+            }
+
+            // Drain everything that became sendable during the poll.
+            while let Some(frame) = tx.next_sendable_frame() {
+                buf.clear();
+                let res = frame.send_blocking(|bytes| {
+                    buf.extend_from_slice(bytes);
+                    Ok(bytes.len())
+                });
+                if res.is_err() {
+                    continue;
+                }
+                stats.frames_sent += 1;
+                seg.now_ns = now_us().wrapping_mul(1000).wrapping_add(cfg.sim.segment_epoch_ns);
+                let response = seg.process(&buf);
+                let mut delay_us = lat_min + rng.below(lat_max - lat_min + 1);
+                if cfg.add_frame_cost {
+                    let mut cost_ns = cfg.sim.frame_fixed_ns + cfg.sim.ns_per_byte * buf.len() as u64;
+                    if cfg.sim.add_round_trip {
+                        cost_ns += seg.last_round_trip_ns;
+                    }
+                    delay_us += cost_ns.div_ceil(1000);
+                }
+                in_flight.push(InFlight {
+                    // At least one tick so that time passes for busy loops.
+                    deliver_at_us: now_us() + delay_us.max(1),
+                    sent_seq,
+                    response,
+                });
+                sent_seq += 1;
+                stats.max_in_flight = stats.max_in_flight.max(in_flight.len());
+                if stats.frames_sent >= limits.max_frames {
+                    break;
+                }
+            }
+            continue;
+        }
+
+        // Nothing ready: jump to the next delivery or timer.
+        let next_delivery = in_flight.iter().map(|f| f.deliver_at_us).min();
+        let next = match (next_delivery, earliest_wake()) {
+            (Some(a), Some(b)) => Some(a.min(b)),
+            (a, b) => a.or(b),
+        };
+        match next {
+            Some(t) => {
+                stats.clock_jumps += 1;
+                set_time(t);
+                if next_delivery.is_none() {
+                    // Wakers of dropped timers may belong to nobody: if the jump woke no task, look
+                    // at the next timer instead of reporting a hang too early.
+                    let any = (0..n).any(|t| !done[t] && flags[t].0.load(Ordering::SeqCst));
+                    if !any && earliest_wake().is_none() {
+                        stats.virtual_us = now_us() - start_us;
+                        stats.completed = done;
+                        return MultiOutcome::Hang(stats);
+                    }
+                }
+            }
+            None => {
+                stats.completed = done;
+                return MultiOutcome::Hang(stats);
             }
         }
     }
